@@ -282,22 +282,47 @@ class ResolvePortRefs(ElabPass):
         # Copy any relevant attributes of the Port
         sig = self.copy_port(port)
 
-        # Each element of an Instance Array gets its own, private section of the new Signal.
-        # A Signal of the Port's own width would instead be broadcast, shorting the "unconnected" Ports together.
-        if isinstance(portref.inst, InstanceArray) and isinstance(sig, Signal):
-            sig.width = sig.width * portref.inst.n
-
         # Set the signal name, either from the NoConn or the instance/port names.
         # In both cases avoid every name already in the Module, which `module.add` would silently replace.
         if noconn.name is not None:
             segments = [noconn.name]
         else:
             segments = [f"{portref.inst.name}_{portref.portname}"]
+
+        # Each element of an Instance Array gets its own, private section of the new Signal.
+        # A Signal of the Port's own width would instead be broadcast, shorting the "unconnected" Ports together.
+        if isinstance(portref.inst, InstanceArray) and isinstance(sig, Signal):
+            sig.width = sig.width * portref.inst.n
+
+        # The same holds for a Bundle-valued Port: a single new `BundleInstance` would be broadcast to every element.
+        # Connect an anonymous Bundle of new Signals instead, each wide enough for a private section per element.
+        if isinstance(portref.inst, InstanceArray) and isinstance(sig, BundleInstance):
+            anon = self.noconn_array_bundle(module, sig.of, segments, portref.inst.n)
+            portref.inst.connect(portref.portname, anon)
+            return
+
         sig.name = self.flatname(segments=segments, avoid=module.namespace)
 
         # Add the new signal, and connect it to `inst`
         module.add(sig)
         portref.inst.connect(portref.portname, sig)
+
+    def noconn_array_bundle(
+        self, module: Module, bundle: "Bundle", segments: List[str], n: int
+    ) -> AnonymousBundle:
+        """Create the replacement for a `NoConn` on a `bundle`-valued Port of an Instance Array of size `n`:
+        an `AnonymousBundle` with a new Signal, `n` times as wide, for each Signal of `bundle` and its sub-Bundles.
+        """
+        anon = AnonymousBundle()
+        for name, port in bundle.signals.items():
+            sig = self.copy_port(port)
+            sig.width = sig.width * n
+            sig.name = self.flatname(segments=segments + [name], avoid=module.namespace)
+            module.add(sig)
+            anon.add(name, sig)
+        for name, sub in bundle.bundles.items():
+            anon.add(name, self.noconn_array_bundle(module, sub.of, segments + [name], n))
+        return anon
 
 
 class SetList:
